@@ -8,6 +8,7 @@ import (
 	"os"
 	"os/exec"
 	"path/filepath"
+	"regexp"
 	"strconv"
 	"strings"
 	"syscall"
@@ -139,14 +140,47 @@ func c6HistBatch(b int, r *rand.Rand) []c6HistItem {
 	return items
 }
 
+// c6HistSQL is one statement of a history item: the bare SELECT item, the WHERE predicate, and the SELECT
+// item again with every column reference back-quoted (back-quoted identifiers take the expression-bridge
+// path with its own text-keyed caches).
+type c6HistSQL struct {
+	Key   string // result key
+	Mode  string // canonicalisation mode: value | where
+	SQL   string
+	Site  string
+	Value c6Variant
+}
+
+func (it c6HistItem) sqls() []c6HistSQL {
+	bt := it.value.sql()
+	if len(it.g.rows) > 0 {
+		names := map[string]bool{}
+		for _, row := range it.g.rows {
+			for name := range row {
+				if name != "id" {
+					names[name] = true
+				}
+			}
+		}
+		for name := range names {
+			bt = regexp.MustCompile(`\b`+regexp.QuoteMeta(name)+`\b`).ReplaceAllString(bt, "`"+name+"`")
+		}
+	}
+	return []c6HistSQL{
+		{"value", it.value.Mode, it.value.sql(), c6Site(it.value), it.value},
+		{"where", it.where.Mode, it.where.sql(), c6Site(it.where), it.where},
+		{"backtick", it.value.Mode, bt, "select_backtick", it.value},
+	}
+}
+
 func c6HistChild(ctx *core.Ctx, req c6ChildReq) {
 	items := c6HistBatch(req.Index, ctx.Rng("hist", req.Index))
 	out := map[string]any{}
 	for k, it := range items {
 		n := len(it.g.rows)
-		for _, v := range []c6Variant{it.value, it.where} {
+		for _, v := range it.sqls() {
 			res := make([]string, n)
-			outs, err := c6Run(v.sql(), it.g.rows, c6Rot(n, req.Rot))
+			outs, err := c6Run(v.SQL, it.g.rows, c6Rot(n, req.Rot))
 			for ri := range res {
 				if err != nil {
 					res[ri] = "execute_error"
@@ -154,7 +188,7 @@ func c6HistChild(ctx *core.Ctx, req c6ChildReq) {
 					res[ri] = c6Canon(outs[ri], v.Mode, false)
 				}
 			}
-			out[fmt.Sprintf("%d|%s", k, v.Mode)] = res
+			out[fmt.Sprintf("%d|%s", k, v.Key)] = res
 		}
 	}
 	ctx.Extra("hist", out)
@@ -197,19 +231,19 @@ func c06Hist(ctx *core.Ctx) {
 			return "?"
 		}
 		for k, it := range items {
-			for _, v := range []c6Variant{it.value, it.where} {
+			for _, hv := range it.sqls() {
 				reported := false
 				for ri, row := range it.g.rows {
 					refChild := 0
 					if ri < c6HistOrders {
 						refChild = ri // the child in which this row was the first use of the text
 					}
-					want := get(refChild, k, v.Mode, ri)
+					want := get(refChild, k, hv.Key, ri)
 					for j := 0; j < c6HistOrders && !reported; j++ {
 						if j == refChild {
 							continue
 						}
-						got := get(j, k, v.Mode, ri)
+						got := get(j, k, hv.Key, ri)
 						if got == "?" || want == "?" {
 							ctx.Inconclusive("hist: a child result is missing")
 							return
@@ -223,11 +257,11 @@ func c06Hist(ctx *core.Ctx) {
 							}
 							ctx.Count("violations.invariance.history", 1)
 							ctx.Violate(core.Violation{Kind: "invariance.history",
-								Attrs: map[string]string{"mode": "fresh_process", "site": c6Site(v), "root": it.a.rootTag(), "features": it.a.features(),
+								Attrs: map[string]string{"mode": "fresh_process", "site": hv.Site, "root": it.a.rootTag(), "features": it.a.features(),
 									"row": c6RowShape(it.a, row, it.g.base), "first_a": c6FirstRowType[refChild], "first_b": c6FirstRowType[j]},
 								Detail: fmt.Sprintf("%s\n  row %s\n  fresh process presenting rows in order %s: %s\n  fresh process presenting rows in order %s: %s",
-									v.sql(), c6RowString(row), c6FirstRowType[refChild], want, c6FirstRowType[j], got),
-								Case: &c06HistCase{CaseRef: core.CaseRef{Stream: "hist", Index: b}, SQL: v.sql(), Row: c6RowString(row), Rows: rows,
+									hv.SQL, c6RowString(row), c6FirstRowType[refChild], want, c6FirstRowType[j], got),
+								Case: &c06HistCase{CaseRef: core.CaseRef{Stream: "hist", Index: b}, SQL: hv.SQL, Row: c6RowString(row), Rows: rows,
 									Rots: c6FirstRowType[refChild] + " vs " + c6FirstRowType[j]}})
 						}
 					}
